@@ -52,3 +52,21 @@ check("C14", "fault_enumeration",
       "Trusted: the failing writers of the harness. Documents are sampled; offsets are complete only for outputs up to 2048 bytes.",
       "runtime monitoring with fault injection: enumeration of writer fault offsets x writer variants, prefix/error oracle",
       "DESIGN.md section 4 / C14")
+check("C06", "exploration",
+      "History monitoring: Convert/Parse/Render(k times) histories on long-lived shared instances; every operation is compared with the recorded output of a fresh instance (the sequential specification is a stateless function, so per-operation comparison is the complete history check), "
+      "Convert with Parse+Render, every re-render with the first, accessor-level tree snapshots before/after Render; reference outputs are recorded while configurations are instantiated one by one (worker-specific order) and re-checked at the end, which exposes leaks between instances.",
+      "Trusted: the snapshot function (oracle/snapshot.go). Histories and documents are sampled; 24 of the 288 configurations take part.",
+      "runtime monitoring: history checker against a stateless sequential specification + tree snapshot comparison, over randomized call histories",
+      "DESIGN.md section 4 / C06")
+check("C07", "exploration",
+      "Go race detector over concurrent-first-use rounds on fresh shared instances (24 worker processes: GOMAXPROCS 1/2/4/16 x repetitions), with a synchronisation-free yield/spin hook inside goldmark's lazy initialisers; "
+      "any race report with a goldmark frame, any fatal runtime error, and any output differing from the sequential output is a violation. Overlap is measured from goroutine-local timestamps; a run without overlapping calls is inconclusive.",
+      "Trusted: the Go race detector and runtime. Happens-before detection flags executed conflicting accesses irrespective of timing, but only on paths the rounds execute.",
+      "runtime monitoring: Go race detector (-race build) + output comparison under stress rounds with injected yields across GOMAXPROCS values",
+      "DESIGN.md section 4 / C07")
+check("C12", "exploration",
+      "Hardware write sanitizer: the source (and 0/1/64 bytes of spare capacity) lives in an mprotect'ed read-only mapping while Parse, Render, Convert, AST accessor sweeps and the util transformers run; a store is observed as a page fault (SetPanicOnFault) with the faulting offset and stack; "
+      "a canary pass on writable memory names changed bytes. A self-test store must fault or the run is inconclusive.",
+      "Trusted: the MMU/mprotect and Go's SetPanicOnFault. Only executed paths are covered.",
+      "runtime monitoring: mprotect-based write sanitizer (page-fault oracle) + canary diff over exhaustive-short and randomized inputs",
+      "DESIGN.md section 4 / C12")
